@@ -960,6 +960,9 @@ static size_t ZDICT_addEntropyTablesFromBuffer_advanced(
         if (ZDICT_isError(eSize)) return eSize;
         hSize += eSize;
     }
+    /* when header + content exceed the capacity the header truncates the content :
+     * what is left of it must still hold the start repcodes */
+    if (hSize + ZDICT_maxRep(repStartValue) > dictBufferCapacity) return ERROR(dstSize_tooSmall);
 
     /* add dictionary header (after entropy tables) */
     MEM_writeLE32(dictBuffer, ZSTD_MAGIC_DICTIONARY);
